@@ -2,8 +2,10 @@
 from harness import gen_loop, spec_loop
 
 MODEL = 'loop'
-RULE = ('corpus, then seeded random scenarios: clock readings in units of 1/8 s (non-decreasing, with '
-        'repeats) fed as exact binary floats, 1-3 start() calls of 1-8 frames over 1-3 worlds with 1-3 '
+RULE = ('corpus, then seeded random scenarios: integer clock readings fed to the real loop as floats r/8, as Python '
+        'ints of any size (around and above 2**53, ns since the epoch) or as exact Fractions r/7; small, huge and '
+        'negative bases, repeats, mostly non-decreasing and sometimes stepping backwards; the delta handed to process '
+        'is compared with the difference of the two readings as exact rationals, never through float; 1-3 start() calls of 1-8 frames over 1-3 worlds with 1-3 '
         'processors each, in which any processor of any frame (plain, on_update callback, coroutine) quits '
         '(quit_loop with and without target, raise Quit), switches or raises another exception; restarts '
         'after Quit, after a propagated exception and after the clock ran out.  Non-trivial: a start() '
@@ -13,8 +15,9 @@ TIE = ('correspondence check (differential run of the Lean model and the real de
        'world being read from loop.current_world at every clock reading and at every quit/raise of user code')
 TRUSTED = ['the wall clock (time.perf_counter monotonicity and resolution) is an input of the model, not verified',
            'harness/models/loop.py observes World.process through an attribute set on each world instance']
-ASSUMPTIONS = ['the clock is an input: a finite list of readings exactly representable in binary floating '
-               'point; the scenario time function raises ClockExhausted after the last one',
+ASSUMPTIONS = ['the clock is an input: a finite list of integer readings (any size and sign) that the scenario time '
+               'function returns as float r/8 (|r| < 2**50, exact), int r or Fraction(r, 7); it raises ClockExhausted '
+               'after the last one',
                'callbacks are scripted reactions (switch, quit, raise) and terminate',
                'the dispatch_enabled setter pops one queued event at a time (D7 repair, commit ac9c198)']
 FRAME_W = dict(gen_loop.FRAME_W, quit=2.5, quitto=1, rquit=2.5, rother=2.5, switch=3)
@@ -85,4 +88,9 @@ def stats(scenarios, impl_obs):
             'starts_ended_Other': count(lambda o: o.startswith('ret raised Other')),
             'starts_ended_ClockExhausted': count(lambda o: o.startswith('ret raised ClockExhausted')),
             'on_quit_deliveries': count(lambda o: ' on_quit ' in o),
-            'nonzero_dt_frames': count(lambda o: o.startswith('frame ') and o.split()[2] != '0')}
+            'nonzero_dt_frames': count(lambda o: o.startswith('frame ') and o.split()[2] != '0'),
+            'negative_dt_frames': count(lambda o: o.startswith('frame ') and o.split()[2].startswith('-')),
+            'clock_kinds': {k: sum(1 for s in scenarios if (f'clock {k}' in s) or (k == 'f8' and not any(
+                l.startswith('clock ') for l in s))) for k in ('f8', 'int', 'frac')},
+            'readings_at_or_above_2**53': sum(1 for s in scenarios for l in s if l.startswith('frame ')
+                                              and abs(int(l.split()[1])) >= 2 ** 53)}
